@@ -24,7 +24,7 @@ THRESHOLDS = {
 MIN_NONTRIVIAL = {"quick": 60, "thorough": 300}
 RULE = ("cases drawn from VERIF_SEED: random admissible grid (nr 4..48, ntheta 4..96 even, uniform/geometric/random radii, "
         "uniform/random antipodal angles, explicit or automatic circle/radial split), random geometry (4 kinds, random "
-        "parameters), profile (7), DirBC, vector kind, threads; every level of the coarsening chain; signature = "
+        "parameters, 15% mirrored: det DF < 0), profile (7), DirBC, vector kind, threads; every level of the coarsening chain; signature = "
         "(geometry, profile, DirBC, circles mod 2, nr class, ntheta mod 4, levels, vector kind, threads); non-trivial = "
         "|A u| > 0 on every level and grid larger than minimal")
 ASSUMPTIONS = [
